@@ -1,13 +1,26 @@
-import GmqttVerif.Proofs.RedisQueue
+import GmqttVerif.Proofs.RedisQueueLoops
 /-
   C10, redis backend — `persistence/queue/redis` refines `persistence/queue/mem`.
 
   The redis queue (Model/RedisQueue.lean: the list `queue:<id>` in redis + `len`, `current`, `readCache` in memory;
   every method = LRANGE, decode, decide, then RPUSH / LSET index / LREM 1 <bytes>) is compared with the SAME Lean model as
   the memory queue (Model/Queue.lean) by the stream `queue-redis` of `bin/check C10`: same op lines, same oracle.
-  Here the refinement is stated in Lean, and proved for the operations that touch at most one entry (`Init`, `Close`,
-  `Add` below capacity, `Remove`, `Replace`); for the loops — `Read`, `ReadInflight` and the drop ladder of `Add` on a full
-  queue — it is established by that stream only (`_partial`).
+  Here the refinement is stated in Lean and proved for EVERY operation: the ones that touch at most one entry (`Init`,
+  `Close`, `Add` below capacity, `Remove`, `Replace`; Proofs/RedisQueue.lean) and the loops — `Read`, `ReadInflight` and the
+  drop ladder of `Add` on a full queue (Proofs/RedisQueueLoops.lean) —, then combined into one step theorem
+  (`redis_refines_mem`, over the dispatcher `rstep`) and lifted to whole histories (`redis_refines_mem_run`).
+
+  Caller obligations. Besides the state-independent `Queue.WFOp` (added elements are PUBLISHes without packet id, packet ids
+  given to `Read` are non-zero) the refinement needs three obligations RELATIVE TO THE STATE, collected in `FreshOp q op`:
+    * `Add e`     : the ghost tag of `e` is not in the queue (then no two list entries are byte-identical);
+    * `Read pids` : the packet ids are pairwise different and none of them is in use in the queue (what the session's
+                    packet id allocator guarantees; with a reused id the two queues DIFFER observably after the next
+                    `Remove` — `readCache[id]` is overwritten, the memory queue removes the first entry carrying the id —,
+                    see `/verif/findings/c10-redis-refinement-pids.md` and `statement_without_fresh_false` below);
+    * `Replace e` : the ghost tag of the PUBREL is the tag of the slot it overwrites (ghost only: the memory model keeps the
+                    slot's tag, the redis model stores the bytes of `e`).
+  `RedisRefinesMemStatement` therefore carries the hypothesis `FreshOp q op` in addition to the original text (kept as
+  `RedisRefinesMemStatementWFOnly`, which is refuted for the dispatcher by `statement_without_fresh_false`).
 
   `Sim C rq ds q` (Proofs/RedisQueue.lean): the redis list holds exactly the encodings of `q.done ++ q.rest`, `len` and
   `current` are their lengths, `readCache` maps every packet id in front of the cursor to the bytes of its entry, the flags
@@ -19,12 +32,35 @@ open GmqttVerif.Codec (Bytes)
 open GmqttVerif.Redis GmqttVerif.RedisQueue
 open GmqttVerif.Queue (Elem Q)
 
-/-- FULL STATEMENT (established by correspondence, not yet by proof): every operation of a well-formed history gives the
-    same notifier calls, the same returned elements and the same status on both queues, and keeps the relation.
-    `rstep` would be `RedisQueue.{add,read,readInflight,remove,replace,init,close}` dispatched on `Queue.Op`. -/
-def RedisRefinesMemStatement (C : RedisQueue.Codec)
+/-- caller obligations relative to the state (see the header) -/
+def FreshOp (q : Q) : Queue.Op → Prop
+  | .add _ e => e.tag ∉ Queue.tags q.items
+  | .read _ pids => pids.Nodup ∧ ∀ p ∈ pids, p ∉ nzIds q.items
+  | .replace e =>
+    match q.done.find? (fun x => x.id == e.id) with
+    | some x => e.tag = x.tag
+    | none => True
+  | _ => True
+
+instance (q : Q) : DecidablePred (FreshOp q) := fun op => by
+  cases op <;> simp only [FreshOp] <;> try infer_instance
+  split <;> infer_instance
+
+/-- THE ORIGINAL TEXT of the statement (only `Queue.WFOp`). It is false for the dispatcher `rstep` (below): an `Add` that
+    repeats a ghost tag, or a `Read` that reuses a packet id, leaves the relation — `statement_without_fresh_false`. -/
+def RedisRefinesMemStatementWFOnly (C : RedisQueue.Codec)
     (rstep : RQ → Dataset → Queue.Op → RQ × Dataset × List Queue.Ev × List Elem × String) : Prop :=
   ∀ (rq : RQ) (ds : Dataset) (q : Q) (op : Queue.Op), Sim C rq ds q → Queue.WFOp op →
+    let r := rstep rq ds op
+    let m := Queue.step q op
+    r.2.2.1 = m.2.evs ∧ r.2.2.2.1 = m.2.returned ∧ r.2.2.2.2 = m.2.status ∧ Sim C r.1 r.2.1 m.1
+
+/-- FULL STATEMENT: every operation of a well-formed history gives the same notifier calls, the same returned elements and
+    the same status on both queues, and keeps the relation. `rstep` is `RedisQueue.{add,read,readInflight,remove,replace,
+    init,close}` dispatched on `Queue.Op` (`rstep` below). Change against the original text: the hypothesis `FreshOp q op`. -/
+def RedisRefinesMemStatement (C : RedisQueue.Codec)
+    (rstep : RQ → Dataset → Queue.Op → RQ × Dataset × List Queue.Ev × List Elem × String) : Prop :=
+  ∀ (rq : RQ) (ds : Dataset) (q : Q) (op : Queue.Op), Sim C rq ds q → Queue.WFOp op → FreshOp q op →
     let r := rstep rq ds op
     let m := Queue.step q op
     r.2.2.1 = m.2.evs ∧ r.2.2.2.1 = m.2.returned ∧ r.2.2.2.2 = m.2.status ∧ Sim C r.1 r.2.1 m.1
@@ -71,5 +107,215 @@ theorem sim_new (C : RedisQueue.Codec) (key : Bytes) (max ie : Nat) :
   refine ⟨by simp [NoDupKeys], by simp [listAt, Redis.get, Queue.new, Q.items], by simp [Queue.new, Q.items],
     by simp [Queue.new], by simp [cacheGet, Queue.new], rfl, rfl, rfl, rfl, rfl, by simp [Queue.new, Q.items, Queue.tags],
     by simp [Queue.new, Q.items, nzIds], Queue.inv_new max ie⟩
+
+/-! ## the loops -/
+
+/-- `ReadInflight(maxSize)`: LRANGE of the window behind the cursor; every entry with a packet id is returned with a
+    refreshed expiry (LSET at its index when an in-flight expiry is configured), cached, and the cursor moves past it; the
+    first entry without packet id ends the drain. Same returned elements, no notifier calls, relation kept.
+    Hypotheses: the relation only. -/
+theorem redis_refines_mem_readInflight (C : RedisQueue.Codec) (rq : RQ) (ds : Dataset) (q : Q) (now maxSize : Nat)
+    (h : Sim C rq ds q) :
+    (readInflight (ops C) rq ds now maxSize).evs.map evOf = [] ∧
+    (readInflight (ops C) rq ds now maxSize).ret = (q.readInflight now maxSize).2 ∧
+    (readInflight (ops C) rq ds now maxSize).status = .ok ∧
+      Sim C (readInflight (ops C) rq ds now maxSize).q (applyAll ds (readInflight (ops C) rq ds now maxSize).cmds)
+        (q.readInflight now maxSize).1 :=
+  sim_readInflight C rq ds q now maxSize h
+
+/-- `Read(pids)`, every branch (panic before the drain, would block, closed, empty id list, the loop): expired / oversize
+    entries are removed with LREM and reported, QoS 0 entries are removed and returned, QoS 1/2 entries get the next packet
+    id by LSET at the cursor. Same notifier calls (in order, with the two deltas), same returned elements, same status,
+    relation kept.
+    Hypotheses: the relation; the packet ids are non-zero (`Queue.WFOp`), pairwise different and not in use (`FreshOp`). -/
+theorem redis_refines_mem_read (C : RedisQueue.Codec) (rq : RQ) (ds : Dataset) (q : Q) (now : Nat) (pids : List Nat)
+    (h : Sim C rq ds q) (h0 : ∀ p ∈ pids, p ≠ 0) (hnd : pids.Nodup) (hfresh : ∀ p ∈ pids, p ∉ nzIds q.items) :
+    (read (ops C) rq ds now pids).evs.map evOf = (Queue.step q (.read now pids)).2.evs ∧
+    (read (ops C) rq ds now pids).ret = (Queue.step q (.read now pids)).2.returned ∧
+    statusStr (read (ops C) rq ds now pids).status = (Queue.step q (.read now pids)).2.status ∧
+      Sim C (read (ops C) rq ds now pids).q (applyAll ds (read (ops C) rq ds now pids).cmds)
+        (Queue.step q (.read now pids)).1 :=
+  sim_read C rq ds q now pids h h0 hnd hfresh
+
+/-- `Add` on a FULL queue: LRANGE 0 -1, decode, the drop ladder (expired in-flight entry → expired queued → first queued
+    QoS 0 → the newcomer if it is QoS 0 or nothing is queued → the oldest queued) picks the victim the memory queue picks;
+    LREM 1 <its bytes> + RPUSH of the newcomer. Same notifier calls, relation kept.
+    Hypotheses: the relation; the queue is full; the newcomer is a PUBLISH without packet id (`Queue.WFOp`) whose ghost tag
+    is not in the queue (`FreshOp`). (`max > 0` is NOT needed: with `max = 0` both queues drop every newcomer.) -/
+theorem redis_refines_mem_add_full (C : RedisQueue.Codec) (rq : RQ) (ds : Dataset) (q : Q) (now : Nat) (e : Elem)
+    (h : Sim C rq ds q) (hfull : q.max ≤ q.items.length) (hpub : e.pub = true) (hid : e.id = 0)
+    (htag : e.tag ∉ Queue.tags q.items) :
+    (add (ops C) rq ds now e).evs.map evOf = (q.add now e).2 ∧ (add (ops C) rq ds now e).status = .ok ∧
+      Sim C (add (ops C) rq ds now e).q (applyAll ds (add (ops C) rq ds now e).cmds) (q.add now e).1 :=
+  sim_add_full C rq ds q now e h hfull hpub hid htag
+
+/-! ## all operations -/
+
+/-- what a method call of the redis queue makes observable, and the dataset after its commands -/
+def resOut (ds : Dataset) (r : Res Elem) : RQ × Dataset × List Queue.Ev × List Elem × String :=
+  (r.q, applyAll ds r.cmds, r.evs.map evOf, r.ret, statusStr r.status)
+
+/-- the methods of the redis queue dispatched on `Queue.Op` -/
+def rstep (C : RedisQueue.Codec) (rq : RQ) (ds : Dataset) : Queue.Op → RQ × Dataset × List Queue.Ev × List Elem × String
+  | .add now e => resOut ds (add (ops C) rq ds now e)
+  | .read now pids => resOut ds (read (ops C) rq ds now pids)
+  | .readInflight now n => resOut ds (readInflight (ops C) rq ds now n)
+  | .remove pid => resOut ds (remove rq pid)
+  | .replace e => resOut ds (replace (ops C) rq ds e)
+  | .init clean limit => resOut ds (init rq ds clean limit)
+  | .close => resOut ds (close rq)
+
+/-- THE REFINEMENT, one step: for every operation whose caller obligations hold, the redis queue makes the same notifier
+    calls, returns the same elements and the same status as the memory queue, and the simulation relation holds again
+    between the new object state + the dataset after the issued commands and the new memory queue. -/
+theorem redis_refines_mem (C : RedisQueue.Codec) : RedisRefinesMemStatement C (rstep C) := by
+  intro rq ds q op hs hwf hfr
+  cases op with
+  | add now e =>
+    have key : (add (ops C) rq ds now e).evs.map evOf = (q.add now e).2 ∧ (add (ops C) rq ds now e).status = .ok ∧
+        Sim C (add (ops C) rq ds now e).q (applyAll ds (add (ops C) rq ds now e).cmds) (q.add now e).1 := by
+      by_cases hfull : q.items.length < q.max
+      · exact sim_add_notfull C rq ds q now e hs hfull hwf.1 hwf.2 hfr
+      · exact sim_add_full C rq ds q now e hs (by omega) hwf.1 hwf.2 hfr
+    obtain ⟨k1, k2, k3⟩ := key
+    refine ⟨k1, add_ret C rq ds now e, ?_, k3⟩
+    show statusStr (add (ops C) rq ds now e).status = "ok"
+    rw [k2]; rfl
+  | read now pids =>
+    exact sim_read C rq ds q now pids hs hwf hfr.1 hfr.2
+  | readInflight now n =>
+    obtain ⟨k1, k2, k3, k4⟩ := sim_readInflight C rq ds q now n hs
+    refine ⟨k1, k2, ?_, k4⟩
+    show statusStr (readInflight (ops C) rq ds now n).status = "ok"
+    rw [k3]; rfl
+  | remove pid =>
+    obtain ⟨k1, k2, k3⟩ := sim_remove_any C rq ds q pid hs
+    obtain ⟨m1, m2, m3, m4⟩ := step_remove_eq q pid
+    refine ⟨k1.trans m2.symm, (remove_ret rq pid).trans m3.symm, ?_, m1 ▸ k3⟩
+    show statusStr (remove rq pid : Res Elem).status = _
+    rw [k2, m4]; rfl
+  | replace e =>
+    have he : ({ e with tag := ((q.done.find? (fun x => x.id == e.id)).map (·.tag)).getD e.tag } : Elem) = e := by
+      simp only [FreshOp] at hfr
+      cases hf : q.done.find? (fun x => x.id == e.id) with
+      | none => rfl
+      | some x =>
+        rw [hf] at hfr
+        simp only at hfr
+        simp [← hfr]
+    have key := sim_replace C rq ds q e hs
+    simp only [he] at key
+    obtain ⟨k1, k2⟩ := key
+    obtain ⟨m1, m2, m3, m4⟩ := step_replace_eq q e
+    obtain ⟨n1, n2⟩ := replace_ret_evs C rq ds e
+    refine ⟨?_, n1.trans m3.symm, ?_, m1 ▸ k2⟩
+    · show (replace (ops C) rq ds e).evs.map evOf = _
+      rw [n2, m2]; rfl
+    · show statusStr (replace (ops C) rq ds e).status = _
+      rw [k1, m4]
+      cases (q.replace e).2 <;> rfl
+  | init clean limit =>
+    obtain ⟨k1, k2⟩ := sim_init C rq ds q clean limit hs
+    obtain ⟨n1, n2⟩ := init_ret_evs rq ds clean limit
+    refine ⟨?_, n1, ?_, k2⟩
+    · show (init rq ds clean limit : Res Elem).evs.map evOf = []
+      rw [n2]; rfl
+    · show statusStr (init rq ds clean limit : Res Elem).status = "ok"
+      rw [k1]; rfl
+  | close =>
+    exact ⟨rfl, rfl, rfl, sim_close C rq ds q hs⟩
+
+/-! ## whole histories -/
+
+/-- the redis queue over a history: final object state, final dataset, and per operation (notifier calls, returned
+    elements, status) -/
+def rrun (C : RedisQueue.Codec) (rq : RQ) (ds : Dataset) : List Queue.Op → RQ × Dataset × List (List Queue.Ev × List Elem × String)
+  | [] => (rq, ds, [])
+  | op :: ops =>
+    let r := rstep C rq ds op
+    let rest := rrun C r.1 r.2.1 ops
+    (rest.1, rest.2.1, (r.2.2.1, r.2.2.2.1, r.2.2.2.2) :: rest.2.2)
+
+/-- the caller obligations along a history, each relative to the state the memory queue is in at that point -/
+def FreshRun (q : Q) : List Queue.Op → Prop
+  | [] => True
+  | op :: ops => Queue.WFOp op ∧ FreshOp q op ∧ FreshRun (Queue.step q op).1 ops
+
+instance : ∀ (q : Q) (ops : List Queue.Op), Decidable (FreshRun q ops)
+  | _, [] => isTrue trivial
+  | q, op :: ops =>
+    have := instDecidableFreshRun (Queue.step q op).1 ops
+    by unfold FreshRun; infer_instance
+
+/-- THE REFINEMENT, whole histories: from related states, every history whose caller obligations hold produces the same
+    observable outputs (notifier calls, returned elements, status — operation by operation) on the redis queue and on the
+    memory queue, and ends in related states. -/
+theorem redis_refines_mem_run (C : RedisQueue.Codec) (ops : List Queue.Op) (rq : RQ) (ds : Dataset) (q : Q)
+    (h : Sim C rq ds q) (hf : FreshRun q ops) :
+    (rrun C rq ds ops).2.2 = (Queue.run q ops).2.map (fun o => (o.evs, o.returned, o.status)) ∧
+      Sim C (rrun C rq ds ops).1 (rrun C rq ds ops).2.1 (Queue.run q ops).1 := by
+  induction ops generalizing rq ds q with
+  | nil => exact ⟨rfl, h⟩
+  | cons op ops ih =>
+    obtain ⟨hwf, hfr, hrest⟩ := hf
+    obtain ⟨s1, s2, s3, s4⟩ := redis_refines_mem C rq ds q op h hwf hfr
+    obtain ⟨i1, i2⟩ := ih _ _ _ s4 hrest
+    rw [Queue.run_cons]
+    refine ⟨?_, i2⟩
+    show (_, _, _) :: (rrun C (rstep C rq ds op).1 (rstep C rq ds op).2.1 ops).2.2 = _
+    rw [i1, List.map_cons, s1, s2, s3]
+
+/-- histories from the fresh queue: a new queue object over an empty dataset against `Queue.new` -/
+theorem redis_refines_mem_from_new (C : RedisQueue.Codec) (key : Bytes) (max ie : Nat) (ops : List Queue.Op)
+    (hf : FreshRun (Queue.new max ie) ops) :
+    (rrun C { key := key, max := max, ie := ie } [] ops).2.2 =
+        (Queue.run (Queue.new max ie) ops).2.map (fun o => (o.evs, o.returned, o.status)) ∧
+      Sim C (rrun C { key := key, max := max, ie := ie } [] ops).1 (rrun C { key := key, max := max, ie := ie } [] ops).2.1
+        (Queue.run (Queue.new max ie) ops).1 :=
+  redis_refines_mem_run C ops _ _ _ (sim_new C key max ie) hf
+
+/-! ## non-vacuity, and why `FreshOp` is needed -/
+
+def exElem (t q : Nat) (x : Option Nat) : Elem := { tag := t, pub := true, id := 0, qos := q, exp := x, size := 20 }
+
+/-- a history that ends with one message in flight (tag 1, packet id 7) and two queued (tags 2, 3) in a queue of capacity 3 -/
+def exOps : List Queue.Op :=
+  [.init true 100, .readInflight 1 10, .add 2 (exElem 1 1 none), .add 3 (exElem 2 0 none), .add 4 (exElem 3 2 (some 9)),
+   .read 5 [7]]
+
+/-- … continued: `Add` on the full queue (the ladder drops the queued QoS 0 message), a `Read` with two fresh ids, the PUBREL
+    of the in-flight message, its acknowledgement, a reconnect and the replay -/
+def exOps2 : List Queue.Op :=
+  exOps ++ [.add 6 (exElem 4 1 none), .read 7 [8, 9], .replace { exElem 1 1 none with pub := false, id := 7 }, .remove 7,
+    .init false 100, .readInflight 8 1, .readInflight 9 5, .add 20 (exElem 5 1 none)]
+
+example : FreshRun (Queue.new 3 0) exOps2 := by decide
+
+/-- the hypotheses of the three loop theorems are met by a non-trivial state: for every codec there are a queue object, a
+    dataset and a memory queue in the relation, with something in flight AND something queued, on which `Add` finds the
+    queue full, and `Read [8, 9]` / `ReadInflight` / `Add (tag 4)` satisfy their side conditions -/
+example (C : RedisQueue.Codec) (key : Bytes) :
+    ∃ rq ds q, Sim C rq ds q ∧ q.done ≠ [] ∧ q.rest ≠ [] ∧ q.max ≤ q.items.length ∧
+      ((exElem 4 1 none).pub = true ∧ (exElem 4 1 none).id = 0 ∧ (exElem 4 1 none).tag ∉ Queue.tags q.items) ∧
+      ((∀ p ∈ [8, 9], p ≠ 0) ∧ [8, 9].Nodup ∧ ∀ p ∈ [8, 9], p ∉ nzIds q.items) ∧
+      (q.add 6 (exElem 4 1 none)).2 = [.dropped (exElem 2 0 none) .full] :=
+  ⟨_, _, _, (redis_refines_mem_from_new C key 3 0 exOps (by decide)).2, by decide, by decide, by decide, by decide,
+    by decide, by decide⟩
+
+/-- and over that history (and its continuation) the redis queue reports what the memory queue reports, whatever the codec -/
+example (C : RedisQueue.Codec) (key : Bytes) :
+    (rrun C { key := key, max := 3, ie := 0 } [] exOps2).2.2 =
+      (Queue.run (Queue.new 3 0) exOps2).2.map (fun o => (o.evs, o.returned, o.status)) :=
+  (redis_refines_mem_from_new C key 3 0 exOps2 (by decide)).1
+
+/-- The original text of the statement (without `FreshOp`) does not hold for the dispatcher: adding the same ghost tag twice
+    is allowed by `Queue.WFOp`, and afterwards two list entries are byte-identical — the relation (which records that they
+    are not) cannot hold. (For a reused packet id the difference is observable: findings/c10-redis-refinement-pids.md.) -/
+theorem statement_without_fresh_false (C : RedisQueue.Codec) : ¬ RedisRefinesMemStatementWFOnly C (rstep C) := by
+  intro H
+  have h0 := sim_new C [] 5 0
+  have h1 := (H _ _ _ (.add 0 (exElem 1 1 none)) h0 (by decide)).2.2.2
+  have h2 := (H _ _ _ (.add 0 (exElem 1 1 none)) h1 (by decide)).2.2.2
+  exact absurd h2.tags (by decide)
 
 end GmqttVerif.C10Redis
